@@ -71,6 +71,9 @@ def c03(tier):
     run = P.Run("C03", tier, ["C03_"])
     s = run.seed
     defs = F.curated() + F.random_family(1200 + s, sizes(tier, 60, 600), nmax=4)
+    # Spec B + provider: C03_rest at every quiescent state and no behaviour cut by the (generous) step bound
+    run.add_mc(F.curated() + F.curated_retry() + F.curated_items()[:8] + F.random_family(3400 + s, sizes(tier, 20, 200), nmax=4),
+               ["C03"], max_pause=1, max_cancel=(0 if tier == "quick" else 1), max_steps=40, replay=False, bound_check=True)
     run.add_jobs(jobs_for(defs, {"pause": 1, "cancel": 1, "max_nodes": sizes(tier, 1500, 5000)}, s))
     more = F.curated_items() + F.curated_retry()
     run.add_jobs(jobs_for(more, {"pause": 1, "cancel": 1, "max_nodes": sizes(tier, 800, 5000)}, s, tok="visit"))
@@ -469,6 +472,29 @@ def conform(tier):
                           {"pause": 1, "cancel": 1, "sample": 3, "max_nodes": 1500}, s))
     run.add_jobs(jobs_for(F.curated() + F.curated_items()[:10] + F.curated_retry()[:6] + F.random_family(27 + s, n // 2, nmax=4, publish=True),
                           {"rerun": 1, "rerun_tasks": "all", "rerun_multi": True, "probe_rerun": True, "max_nodes": 1500}, s))
+    # the status tables of the specification against machines.py, cell by cell, both ways
+    from . import tlc
+    import re
+    res = tlc.run("LifecycleDump", workers=1, timeout=300, workdir=run.tmp)
+    m = re.search(r'<<"LC", "(.*)">>', res["out"])
+    cells = {"compared": 0, "differ": []}
+    if not m:
+        run.machinery.append("LifecycleDump: no output\n" + res["out"][-1500:])
+    else:
+        spec_t = json.loads(m.group(1).encode().decode("unicode_escape"))
+        from orquesta import machines
+        for nm, code_t in (("wf", machines.WORKFLOW_STATE_MACHINE_DATA), ("tk", machines.TASK_STATE_MACHINE_DATA)):
+            st_all = set(code_t) | set(spec_t[nm])
+            for st in sorted(st_all):
+                crow = dict(code_t.get(st, {}))
+                srow = {k: v for k, v in dict(spec_t[nm].get(st, {})).items() if k != "none"}
+                for ev in sorted(set(crow) | set(srow)):
+                    cells["compared"] += 1
+                    if crow.get(ev) != srow.get(ev):
+                        cells["differ"].append([nm, st, ev, crow.get(ev), srow.get(ev)])
+    run.extra["lifecycle_cells"] = {"compared": cells["compared"], "differing": len(cells["differ"]), "samples": cells["differ"][:5]}
+    run.divergences += len(cells["differ"])
+    print("lifecycle tables: cells=%d differing=%d" % (cells["compared"], len(cells["differ"])))
     print("conformance: steps=%d divergences=%d" % (run.conform_nodes, run.divergences))
     rc = run.finish("model_checking", "every explored step compared with Spec B's transition function", ASSUME_COMMON)
     return 2 if run.divergences else (0 if rc in (0, 1) else rc)
